@@ -53,7 +53,7 @@ Lemma step_prune m0 mc c b k v rest nx :
   PInv m0 mc c b -> b <= k -> lookup m0 k = Some v ->
   (forall id v', lookup m0 id = Some v' -> b <= id -> In (id, v') ((k, v) :: rest)) ->
   sorted_from b ((k, v) :: rest) ->
-  let r := step_item check_and_put (mc, c, nx) (k, v) in
+  let r := step_item check_and_put no_rw (mc, c, nx) (k, v) in
   PInv m0 (fst (fst r)) (snd (fst r)) (k + 1).
 Proof.
   intros [Ps Pin Pall Prest Pids Pdisj] Hbk Hk Hcover Hsorted r. subst r.
@@ -133,7 +133,7 @@ Lemma fold_prune m0 : forall items mc c b nx,
   PInv m0 mc c b -> sorted_from b items -> 0 <= b ->
   (forall k v, In (k, v) items -> lookup m0 k = Some v) ->
   (forall id v', lookup m0 id = Some v' -> b <= id -> In (id, v') items) ->
-  let r := fold_left (step_item check_and_put) items (mc, c, nx) in
+  let r := fold_left (step_item check_and_put no_rw) items (mc, c, nx) in
   exists b', PInv m0 (fst (fst r)) (snd (fst r)) b' /\ forall id, b' <= id -> lookup m0 id = None.
 Proof.
   induction items as [|[k v] rest IH]; intros mc c b nx P Hs Hb Hin Hcover r; subst r; cbn [fold_left].
@@ -142,7 +142,7 @@ Proof.
   - destruct Hs as [Hbk Hsr].
     pose proof (step_prune m0 mc c b k v rest nx P Hbk (Hin k v (or_introl eq_refl)) Hcover (conj Hbk Hsr)) as P'.
     cbv zeta in P'.
-    destruct (step_item check_and_put (mc, c, nx) (k, v)) as [[mc' c'] nx'] eqn:E. cbn [fst snd] in P'.
+    destruct (step_item check_and_put no_rw (mc, c, nx) (k, v)) as [[mc' c'] nx'] eqn:E. cbn [fst snd] in P'.
     apply (IH mc' c' (k + 1) nx' P' Hsr ltac:(lia)).
     + intros k' v' H. apply (Hin k' v'). right. exact H.
     + intros id v' Hl Hid. destruct (Hcover id v' Hl ltac:(lia)) as [Eq|H]; [inversion Eq; lia|exact H].
